@@ -240,7 +240,7 @@ META = {
         "evaluations": ["crash_runs", "fault_runs", "fault_crash_runs"],
         "required": ["scenarios_traced", "crash_runs", "killed_at:write", "killed_at:openat", "killed_at:renameat", "killed_at:mkdirat", "killed_at:close",
                      "later_run_replayed", "later_run_found_nothing", "second_saves_after_kill",
-                     "fault_runs", "fault_crash_runs", "fault_injected:renameat=EXDEV", "fault_killed_at:unlinkat", "explicit_crash_runs", "explicit_file_untouched"],
+                     "fault_runs", "fault_crash_runs", "fault_injected:renameat=EXDEV", "fault_killed_at:unlinkat", "explicit_crash_runs", "explicit_file_untouched", "existing_file_untouched"],
         "show": ["scenarios_traced", "save_syscalls", "crash_runs", "later_run_replayed", "later_run_found_nothing", "crash_point_not_reached", "fault_runs", "fault_crash_runs"],
         "rule": "a child process (main goroutine locked to the main thread) runs a real failing Check with fail files on in an empty directory under "
                 "strace; the reference trace lists every file-system-affecting system call of the main thread between two marker calls (mkdirat, openat, "
@@ -437,7 +437,7 @@ _MORE10 = {
     "C17": "The descriptor-limited child plants 800 unusable entries (empty files, directories, binary files starting with control bytes, text) in front of the usable one and its property opens files of its own. In the explicit families a problem with a fail file must never be an ERROR of the test.",
     "C11": "Family shared-skip-site: non-fatal failure when a > ta, then ONE Skip statement reached when b > tb by failing and non-failing cases alike; the test case presented after minimisation must be one that signalled (C01 oracle). Family deep-abandon: a 600-case Check in which every second test case is abandoned 8-16 generator levels deep; the property never signals a failure and must pass.",
     "C13": "One input in seven is TEXT (the text of a well-formed fail file of this version holding a recording of the same property, a go fuzz corpus header, hex lines, JSON): bytes like any others.",
-    "C16": "Family fault: one file-system call of the save (mkdirat, openat, write, close, renameat, unlinkat; first and last call of every name in the quick tier, every call in the thorough tier) is made to FAIL (ENOSPC, EIO, EDQUOT, EACCES, EMFILE, EXDEV, EBUSY, EROFS by strace error injection); the faulted run is judged by the same trace and directory oracles, and the process is then killed at every later file-system call (of another name - strace keeps one injection per call name) of the error path the library takes. A third of the crash scenarios let minimisation run to its end first (the crash window is the whole failing Check, not only the save). Family explicit: the failing run was started with -rapid.failfile naming a file that is missing or a complete fail file that no longer reproduces (inside or outside the test's directory): that path is picked up by the next run with the same command line, so it must never be opened for writing and must hold what it held before, or a complete save, at every crash point.",
+    "C16": "Family fault: one file-system call of the save (mkdirat, openat, write, close, renameat, unlinkat; first and last call of every name in the quick tier, every call in the thorough tier) is made to FAIL (ENOSPC, EIO, EDQUOT, EACCES, EMFILE, EXDEV, EBUSY, EROFS by strace error injection); the faulted run is judged by the same trace and directory oracles, and the process is then killed at every later file-system call (of another name - strace keeps one injection per call name) of the error path the library takes. A third of the crash scenarios let minimisation run to its end first (the crash window is the whole failing Check, not only the save). Family explicit: the failing run was started with -rapid.failfile naming a file that is missing or a complete fail file that no longer reproduces (inside or outside the test's directory): that path is picked up by the next run with the same command line, so it must never be opened for writing and must hold what it held before, or a complete save, at every crash point. Family existing: an earlier run of the test (logging other text) has left its fail file; the failing run reproduces from it (found by the glob or named with -rapid.failfile): that file is never opened for writing and at every crash point holds what it held or a complete file with the same test case.",
 }
 for _k, _v in _MORE10.items():
     _MORE9[_k] = _MORE9.get(_k, "") + " " + _v
